@@ -193,7 +193,10 @@ func RunBatch(t *testing.T, ch Checker, tier string, batchSeed uint64, from, to 
 			break
 		}
 		seed := RunSeed(batchSeed, i)
+		KeepLogs, LastLogs = i%16 == 5, nil
 		c, o := EvalFresh(t, ch, seed, tier)
+		logsA := LastLogs
+		LastLogs = nil
 		br.Evals++
 		br.Runs += o.Runs
 		br.RealProc += o.RealProc
@@ -218,7 +221,12 @@ func RunBatch(t *testing.T, ch Checker, tier string, batchSeed uint64, from, to 
 			br.DetChecked++
 			br.Runs += o2.Runs
 			if o2.TraceHash != o.TraceHash {
-				br.Infra = append(br.Infra, fmt.Sprintf("seed %d: schedule trace differs between record and replay (%s vs %s)", seed, o.TraceHash, o2.TraceHash))
+				where := "(logs not kept)"
+				if logsA != nil {
+					where = firstLogDifference(logsA, LastLogs)
+					_ = writeJSON(fmt.Sprintf("%s/nondeterminism-%s-%d.json", outDir, ch.Prop(), seed), map[string]interface{}{"case": c, "record": logsA, "replay": LastLogs})
+				}
+				br.Infra = append(br.Infra, fmt.Sprintf("seed %d: schedule trace differs between record and replay (%s vs %s): %s", seed, o.TraceHash, o2.TraceHash, where))
 			} else if o2.LogHash != o.LogHash && ch.Prop() != "C12" && ch.Prop() != "C13" {
 				// same schedule, different observable behaviour: csvq itself is
 				// not a function of its inputs here; only C12 claims that, so
@@ -283,4 +291,29 @@ func hookMissing(names ...string) bool {
 		}
 	}
 	return false
+}
+
+func firstLogDifference(a, b [][]string) string {
+	for r := 0; r < len(a) && r < len(b); r++ {
+		for i := 0; i < len(a[r]) || i < len(b[r]); i++ {
+			la, lb := "<end>", "<end>"
+			if i < len(a[r]) {
+				la = a[r][i]
+			}
+			if i < len(b[r]) {
+				lb = b[r][i]
+			}
+			if strings.HasPrefix(la, "ev ") || strings.HasPrefix(la, "done ") {
+				continue
+			}
+			if la != lb {
+				ctx := ""
+				if i > 0 {
+					ctx = a[r][i-1]
+				}
+				return fmt.Sprintf("sub-run %d line %d: %q vs %q (after %q)", r, i, la, lb, ctx)
+			}
+		}
+	}
+	return fmt.Sprintf("different number of sub-runs (%d vs %d) or only event lines differ", len(a), len(b))
 }
